@@ -72,6 +72,8 @@ def s1_runs(mod, tier):
     runs = [(mod.alphabet(tier), mod.depth(tier))]
     if tier == 'thorough' and getattr(mod, 'DEEP', None):
         runs.append((mod.alphabet('quick'), mod.DEEP))
+    if hasattr(mod, 'extra_runs'):
+        runs += mod.extra_runs(tier)
     return runs
 
 
